@@ -94,7 +94,10 @@ Definition coalesce (e : exc) : exc :=
   | _ => e
   end.
 
-Definition orig_of (b : ending) : option exc := match b with Raise e => Some e | _ => None end.
+(* the backend's cancellation exception (CancelledError / trio.Cancelled), a BaseException *)
+Definition cancel_exc : exc := Leaf 999 false.
+Definition orig_of (b : ending) : option exc :=
+  match b with Raise e => Some e | Cancel => Some cancel_exc | Return => None end.
 
 Fixpoint plain (l : list cexc) : option (list exc) :=
   match l with
